@@ -13,9 +13,20 @@ def analyse(ctx: CheckContext, p: Program):
     if pp is None:
         raise AnalysisError("PinchProblem not found")
     pats = classflow.find_none_guard_memo(r, pp)
+    if len(pats) == 0:
+        # "the wrapper returns the cached result on repeated targeting": a result field that is recomputed unconditionally is a violation, not an analysis problem
+        import ast
+        for nm, f in pp.methods.items():
+            for n in ast.walk(f.node):
+                if isinstance(n, ast.Assign) and isinstance(n.value, ast.Call) and any(
+                        isinstance(t1, ast.Attribute) and t1.attr == "_results" for t in n.targets for t1 in (t.elts if isinstance(t, (ast.Tuple, ast.List)) else [t])):
+                    ctx.ob("MEMO-CACHE", f"{f.qualname}:{nm}", f.loc, False,
+                           f"PinchProblem.{nm} recomputes the targeting result on every call: no `is None` guard protects the cached result")
+                    return
     if len(pats) != 1:
         raise AnalysisError(f"PinchProblem: expected one None-guarded result cache, found {len(pats)}")
     pat = pats[0]
+    ctx.ob("MEMO-CACHE", f"{pat.method.qualname}:guard", pat.method.loc, True, f"result cached behind `{pat.flag} is None`")
     ctx.rule("MEMO", "None-guarded memo: at every normal exit of a method reachable after a write to a field the cached result is computed from, "
                      "the cache has been reset to None (before or after the write, with no recomputation in between)")
     ctx.info["result_cache"] = {"method": pat.method.qualname, "guard": pat.flag, "caches": pat.caches, "sources": sorted(pat.sources)}
@@ -45,6 +56,8 @@ def run(ctx: CheckContext):
     ]
     run_control(ctx, "C16/load-keeps-cache", analyse, p.root, "OpenPinch/classes/pinch_problem.py",
                 "        self._results = None\n        self._master_zone = None\n\n        if isinstance(source, TargetInput):", "        if isinstance(source, TargetInput):", "MEMO-M1")
+    run_control(ctx, "C16/always-recompute", analyse, p.root, "OpenPinch/classes/pinch_problem.py",
+                "        if self._results is None:\n            self._results, self._master_zone = pinch_analysis_service(", "        if True:\n            self._results, self._master_zone = pinch_analysis_service(", "MEMO-CACHE")
     run_control(ctx, "C16/applymap", analyse, p.root, "OpenPinch/utils/csv_to_json.py",
                 "df_data = df_data.map(_to_number_maybe)", "df_data = df_data.applymap(_to_number_maybe)", "API-DF")
     run_control(ctx, "C16/sheet-32", analyse, p.root, "OpenPinch/utils/export.py", "candidate = cleaned[:31] or", "candidate = cleaned[:32] or", "BOUND-LEN")
